@@ -375,6 +375,10 @@ def gen_build(rng):
         sc['change'] = None
     if rng.random() < 0.2 and free:
         sc['collaterals'] = [rng.choice(free) for _ in range(rng.randint(1, 3))]
+    if rng.random() < 0.25:
+        if not sc['collaterals'] and free and rng.random() < 0.6:
+            sc['collaterals'] = rng.sample(free, min(len(free), rng.randint(2, 3)))
+        sc['session'] = True                      # second build of a wallet session re-using the UTxO objects of the first
     return sc
 
 
